@@ -7,6 +7,8 @@ import (
 	"sort"
 	"strconv"
 
+	"strings"
+
 	corev1 "k8s.io/api/core/v1"
 
 	v1 "github.com/DataDog/extendeddaemonset/api/v1alpha1"
@@ -312,6 +314,22 @@ func DiffStatus(got *v1.ExtendedDaemonSetStatus, want ExpectedStatus) []string {
 		}
 		if EDSCond(got, v1.ConditionTypeEDSCanaryPaused) != want.CondPaused {
 			d = append(d, "cond-canary-paused")
+		}
+		// a true Canary-Paused condition names the same cause and the same replica set as the rest of the status
+		if got.State == v1.ExtendedDaemonSetStatusStateCanaryPaused && got.Canary != nil {
+			for i := range got.Conditions {
+				c := &got.Conditions[i]
+				if c.Type != v1.ConditionTypeEDSCanaryPaused || c.Status != corev1.ConditionTrue {
+					continue
+				}
+				if c.Reason != string(got.Reason) {
+					d = append(d, "cond-canary-paused-reason")
+				}
+				if !strings.Contains(c.Message, got.Canary.ReplicaSet) {
+					d = append(d, "cond-canary-paused-message")
+				}
+				break
+			}
 		}
 	}
 	return d
